@@ -26,6 +26,7 @@ fn dispatch(cmd: &str, args: &[&str]) -> String {
         "ghwslices" => slice::run_ghw(args),
         "detectc" => detect::run_cursor(args),
         "vcd" => vcd::run_vcd(args),
+        "file" => vcd::run_file(args),
         _ => "UNSUPPORTED".to_string(),
     }
 }
